@@ -2,12 +2,20 @@
 
 Decides: documented option subset-of read-from-config subset-of dumped (R1); argument-overrides-file
 order (R2); registry / type / to_dict agreement (R3); first-match cluster search (R4).
+
+The rules decide the clauses on *values per path class*, not on the spelling of statements: `_sym_paths`
+walks the acyclic paths of a constructor keeping, per path, what every local / `self.<field>` holds (as an
+expression over the parameters) and under which branch literals; "argument over configuration" is then a
+statement about these (literals, value) pairs and holds alike for `x = cfg; if p is not None: x = p`,
+`x = cfg if p is None else p`, nested / inverted ifs, temporaries and helpers that return the value.
 """
 import ast
+import copy
 import re
 
 from .. import astutil as A
 from ..fa import FA
+from ..loader import AnalysisError, FuncInfo
 
 # constructor keyword -> configuration key (names differ only here)
 ARG_TO_KEY = {"read_only": "readonly"}
@@ -20,72 +28,643 @@ BACKENDS = [
 ]
 
 
+def _str_const(ck, mod, cls, e, depth=3):
+    """The string an expression denotes: a literal, a module-level constant, a class-level constant (`self.X` / `cls.X` /
+    `Class.X`, also of a base class)."""
+    if e is None or depth <= 0:
+        return None
+    if A.const_str(e) is not None:
+        return A.const_str(e)
+    if isinstance(e, ast.Name):
+        v = mod.assigns.get(e.id)
+        return _str_const(ck, mod, cls, v, depth - 1) if v is not None else None
+    if isinstance(e, ast.Attribute) and isinstance(e.value, ast.Name):
+        owner = cls if e.value.id in ("self", "cls") else mod.classes.get(e.value.id)
+        for c in (ck.repo.mro(owner) if owner is not None else []):
+            for st in c.node.body:
+                if isinstance(st, ast.Assign) and any(isinstance(t, ast.Name) and t.id == e.attr for t in st.targets):
+                    return _str_const(ck, c.module, c, st.value, depth - 1)
+                if isinstance(st, ast.AnnAssign) and isinstance(st.target, ast.Name) and st.target.id == e.attr and st.value is not None:
+                    return _str_const(ck, c.module, c, st.value, depth - 1)
+    return None
+
+
 def _doc_options(module):
     return re.findall(r"^\* (\w+) - ", module.docstring, flags=re.M)
 
 
-def _config_reads(ck, cls):
-    """Keys read from `config` anywhere in the constructor chain of cls."""
+# =====================================================================================================
+# small expression helpers
+# =====================================================================================================
+def _is_empty_dict(e) -> bool:
+    return (isinstance(e, ast.Dict) and not e.keys) or \
+        (isinstance(e, ast.Call) and isinstance(e.func, ast.Name) and e.func.id == "dict" and not e.args and not e.keywords)
+
+
+def _strip_default(e):
+    """`X if X is not None else {}` / `{} if X is None else X` / `X or {}`  ->  X  (reading from an empty
+    dict and reading from "no configuration" are the same thing); anything else unchanged."""
+    if isinstance(e, ast.IfExp) and isinstance(e.test, ast.Compare) and len(e.test.ops) == 1 and A.is_none(e.test.comparators[0]):
+        op = e.test.ops[0]
+        if isinstance(op, (ast.Is, ast.IsNot)):
+            keep, dflt = (e.body, e.orelse) if isinstance(op, ast.IsNot) else (e.orelse, e.body)
+            if A.norm(keep) == A.norm(e.test.left) and _is_empty_dict(dflt):
+                return keep
+    if isinstance(e, ast.BoolOp) and isinstance(e.op, ast.Or) and len(e.values) == 2 and _is_empty_dict(e.values[1]):
+        return e.values[0]
+    return e
+
+
+def _branches(v):
+    """The alternatives a value expression can evaluate to (conditional expression / `a or b`)."""
+    if isinstance(v, ast.IfExp):
+        return _branches(v.body) + _branches(v.orelse)
+    if isinstance(v, ast.BoolOp) and isinstance(v.op, ast.Or):
+        out = []
+        for x in v.values:
+            out += _branches(x)
+        return out
+    return [v]
+
+
+def _atoms(t, positive):
+    """Branch test taken with a polarity -> literals (text, polarity); `not`, `and` taken true / `or` taken false,
+    `is not` / `!=` / `not in` are normalised away (same conventions as FA.conditions)."""
+    if isinstance(t, ast.UnaryOp) and isinstance(t.op, ast.Not):
+        return _atoms(t.operand, not positive)
+    if isinstance(t, ast.BoolOp) and ((isinstance(t.op, ast.And) and positive) or (isinstance(t.op, ast.Or) and not positive)):
+        out = []
+        for v in t.values:
+            out += _atoms(v, positive)
+        return out
+    if isinstance(t, ast.Compare) and len(t.ops) == 1:
+        op = t.ops[0]
+        neg = {ast.IsNot: "is", ast.NotEq: "==", ast.NotIn: "in"}
+        sym = {ast.Is: "is", ast.Eq: "==", ast.In: "in", ast.Lt: "<", ast.Gt: ">", ast.LtE: "<=", ast.GtE: ">="}
+        lt, rt = A.norm(t.left), A.norm(t.comparators[0])
+        if type(op) in neg:
+            s, positive = neg[type(op)], not positive
+        else:
+            s = sym.get(type(op), type(op).__name__)
+        if s == "==" and rt < lt:
+            lt, rt = rt, lt
+        return [("%s %s %s" % (lt, s, rt), positive)]
+    return [(A.norm(t), positive)]
+
+
+def _test_cases(t, depth=4):
+    """A test that contains a conditional expression, as the cases of that expression: [(literals, test)]."""
+    ife = next((x for x in ast.walk(t) if isinstance(x, ast.IfExp)), None)
+    if ife is None or depth <= 0:
+        return [([], t)]
+    res = []
+    for (pol, br) in ((True, ife.body), (False, ife.orelse)):
+        t2 = _replace(t, ife, br)
+        for (l, t3) in _test_cases(t2, depth - 1):
+            res.append((_atoms(ife.test, pol) + l, t3))
+    return res
+
+
+def _replace(root, old, new):
+    """`root` with the node `old` (by identity) replaced by `new` (unchanged parts are shared)."""
+    def rec(n):
+        if n is old:
+            return new
+        if not isinstance(n, ast.AST):
+            return n
+        ch = {}
+        for f, v in ast.iter_fields(n):
+            if isinstance(v, list):
+                nv = [rec(x) for x in v]
+                if any(a is not b for a, b in zip(nv, v)):
+                    ch[f] = nv
+            elif isinstance(v, ast.AST):
+                nv = rec(v)
+                if nv is not v:
+                    ch[f] = nv
+        if not ch:
+            return n
+        m = copy.copy(n)
+        for f, v in ch.items():
+            setattr(m, f, v)
+        return m
+
+    return rec(root)
+
+
+def _consistent(lits, extra) -> bool:
+    return not any((a[0], not a[1]) in lits for a in extra)
+
+
+def _alts(v):
+    """[(literals, expression)]: the cases of a value that is a conditional expression / `a or b`."""
+    if isinstance(v, ast.IfExp):
+        out = [(_atoms(v.test, True) + l, e) for (l, e) in _alts(v.body)]
+        out += [(_atoms(v.test, False) + l, e) for (l, e) in _alts(v.orelse)]
+        return [(l, e) for (l, e) in out if all(_consistent(l[:i], [x]) for i, x in enumerate(l))]
+    if isinstance(v, ast.BoolOp) and isinstance(v.op, ast.Or) and len(v.values) == 2:
+        a_, b_ = v.values
+        return [(_atoms(a_, True), a_)] + [(_atoms(a_, False) + l, e) for (l, e) in _alts(b_)]
+    return [([], v)]
+
+
+def _mentions_config(e) -> bool:
+    """Does the (path-substituted) expression read the configuration object?"""
+    for x in ast.walk(e):
+        if isinstance(x, ast.Name) and x.id == "config":
+            return True
+        if isinstance(x, ast.Attribute) and x.attr == "config" and A.norm(x.value) == "self":
+            return True
+    return False
+
+
+def _cfg_key_read(e, key=None):
+    """`config.get(K[, d])` / `config[K]` on the configuration object itself -> K (None otherwise)."""
+    if isinstance(e, ast.Call) and A.call_attr(e) == "get" and e.args and A.norm(A.call_recv(e)) in ("config", "self.config"):
+        k = A.const_str(e.args[0])
+    elif isinstance(e, ast.Subscript) and A.norm(e.value) in ("config", "self.config"):
+        k = A.const_str(e.slice)
+    else:
+        return None
+    return k if key is None or k == key else None
+
+
+# =====================================================================================================
+# path-sensitive symbolic walk
+# =====================================================================================================
+class _Path:
+    __slots__ = ("lits", "env", "end", "node", "value", "obs")
+
+    def __init__(self, lits, env, end, node, value, obs):
+        self.lits, self.env, self.end, self.node, self.value, self.obs = lits, env, end, node, value, obs
+
+    def has(self, text, pol):
+        return (text, pol) in self.lits
+
+
+def _subst(e, env):
+    """`e` with every local / self.<field> replaced by what it holds on this path (unchanged parts are shared, nothing
+    is modified in place)."""
+    if not any(v is not None for v in env.values()):
+        return e
+    bound = set()
+    for x in ast.walk(e):
+        if isinstance(x, ast.comprehension):
+            bound |= {n.id for n in ast.walk(x.target) if isinstance(n, ast.Name)}
+        if isinstance(x, ast.Lambda):
+            bound |= {a.arg for a in x.args.args + x.args.kwonlyargs + x.args.posonlyargs}
+
+    def rec(n):
+        if isinstance(n, ast.Name):
+            if isinstance(n.ctx, ast.Load) and n.id not in bound and env.get(n.id) is not None:
+                return env[n.id]
+            return n
+        if isinstance(n, ast.Attribute) and isinstance(n.ctx, ast.Load):
+            d = A.dotted(n)
+            if d and env.get(d) is not None:
+                return env[d]
+        new = {}
+        for f, v in ast.iter_fields(n):
+            if isinstance(v, list):
+                nv = [rec(x) if isinstance(x, ast.AST) else x for x in v]
+                if any(a is not b for a, b in zip(nv, v)):
+                    new[f] = nv
+            elif isinstance(v, ast.AST):
+                nv = rec(v)
+                if nv is not v:
+                    new[f] = nv
+        if not new:
+            return n
+        m = copy.copy(n)
+        for f, v in new.items():
+            setattr(m, f, v)
+        return m
+
+    return rec(e)
+
+
+def _kill(env, name):
+    env[name] = None
+    for k in list(env):
+        if k.startswith(name + "."):
+            env[k] = None
+
+
+def _assign(env, target, value):
+    if isinstance(target, ast.Name):
+        _kill(env, target.id)
+        env[target.id] = value
+    elif isinstance(target, ast.Attribute) and A.dotted(target) and A.dotted(target).startswith("self."):
+        _kill(env, A.dotted(target))
+        env[A.dotted(target)] = value
+    elif isinstance(target, (ast.Tuple, ast.List)):
+        if isinstance(value, (ast.Tuple, ast.List)) and len(value.elts) == len(target.elts) and not any(isinstance(x, ast.Starred) for x in target.elts):
+            for t, v in zip(target.elts, value.elts):
+                _assign(env, t, v)
+        else:
+            for x in ast.walk(target):
+                if isinstance(x, ast.Name):
+                    _kill(env, x.id)
+    # subscript stores change the content of an object, not what a name is bound to
+
+
+def _sym_paths(fa: FA, env0=None, stops=(), observe=None, cap=6000):
+    """Acyclic paths from the entry to the normal exit / a `return` / one of the `stops` (CFG node ids), each with
+    its branch literals (tests evaluated over the path's own bindings) and the bindings at its end.  A `for` head
+    may be passed twice (once into the body, once out of the loop).  `observe(node, env)` may return an item that
+    is recorded on the path.  Exception edges are not followed.  None when there are more than `cap` paths."""
+    cfg = fa.cfg
+    stops = set(stops)
+    out = []
+    count = [0]
+    params = set(fa.fi.params)
+
+    def dfs(n, seen, lits, env, obs):
+        if count[0] > cap:
+            return
+        nd = cfg.node(n)
+        if n in stops:
+            count[0] += 1
+            out.append(_Path(lits, env, "stop", n, None, obs))
+            return
+        if n == cfg.exit:
+            count[0] += 1
+            out.append(_Path(lits, env, "exit", n, ast.Constant(None), obs))
+            return
+        if observe is not None and nd.ast is not None:
+            it = observe(nd, env)
+            if it is not None:
+                obs = obs + [it]
+        a = nd.ast
+        if nd.kind == "stmt":
+            if isinstance(a, ast.Return):
+                count[0] += 1
+                out.append(_Path(lits, env, "return", n, _subst(a.value, env) if a.value is not None else ast.Constant(None), obs))
+                return
+            if isinstance(a, (ast.Assign, ast.AnnAssign)) and getattr(a, "value", None) is not None:
+                v = _strip_default(_subst(a.value, env))
+                env = dict(env)
+                for t in (a.targets if isinstance(a, ast.Assign) else [a.target]):
+                    if isinstance(t, ast.Name) and _is_empty_dict(v) and t.id in params and env.get(t.id) is None:
+                        continue  # `if p is None: p = {}`: reading the stand-in is reading "no configuration"
+                    _assign(env, t, v)
+            elif isinstance(a, ast.AugAssign):
+                env = dict(env)
+                for x in ast.walk(a.target):
+                    if isinstance(x, ast.Name):
+                        _kill(env, x.id)
+                if A.dotted(a.target):
+                    _kill(env, A.dotted(a.target))
+            elif isinstance(a, ast.Delete):
+                env = dict(env)
+                for t in a.targets:
+                    if A.dotted(t):
+                        _kill(env, A.dotted(t))
+        elif nd.kind in ("for", "with", "except"):
+            env = dict(env)
+            tg = [a.target] if nd.kind == "for" else ([i.optional_vars for i in a.items if i.optional_vars is not None] if nd.kind == "with" else [])
+            for t in tg:
+                for x in ast.walk(t):
+                    if isinstance(x, ast.Name):
+                        _kill(env, x.id)
+            if nd.kind == "except" and a.name:
+                _kill(env, a.name)
+        for (d, l) in cfg.succ[n]:
+            if l == "exc":
+                continue
+            limit = 2 if cfg.node(d).kind == "for" else 1
+            if seen.get(d, 0) >= limit:
+                continue
+            adds = [[]]
+            if nd.kind == "test" and l in ("T", "F") and not isinstance(fa.pm.get(a), ast.While):
+                adds = [extra + _atoms(t_, l == "T") for (extra, t_) in _test_cases(_subst(a, env))]
+            for add in adds:
+                if not _consistent(lits, add) or not all(_consistent(add[:i], [x]) for i, x in enumerate(add)):
+                    continue
+                seen[d] = seen.get(d, 0) + 1
+                dfs(d, seen, lits + [x for x in add if x not in lits], env, obs)
+                seen[d] -= 1
+
+    dfs(cfg.entry, {cfg.entry: 1}, [], dict(env0 or {}), [])
+    if count[0] > cap:
+        return None
+    return out
+
+
+def _class_method(ck, fi, call):
+    """The private method of fi's class that `call` (self.m(...) / cls.m(...) / Class.m(...)) designates, or None."""
+    f = call.func
+    if fi.cls is None or not isinstance(f, ast.Attribute) or not isinstance(f.value, ast.Name):
+        return None
+    if f.value.id not in ("self", "cls", fi.cls.name):
+        return None
+    if not f.attr.startswith("_") or f.attr.startswith("__"):
+        return None
+    return ck.repo.find_method(fi.cls, f.attr)
+
+
+def _bind(callee: FuncInfo, call: ast.Call):
+    """parameter -> argument expression for a plain call (None when the call cannot be bound structurally)."""
+    params = list(callee.params)
+    a = callee.node.args
+    if a.vararg or a.kwarg or any(isinstance(x, ast.Starred) for x in call.args) or any(k.arg is None for k in call.keywords):
+        return None
+    if not callee.is_static and params:
+        params = params[1:]
+    if len(call.args) > len(params):
+        return None
+    env = dict(zip(params, call.args))
+    for k in call.keywords:
+        if k.arg not in params or k.arg in env:
+            return None
+        env[k.arg] = k.value
+    pos = [x.arg for x in a.posonlyargs + a.args]
+    for name, d in zip(pos[len(pos) - len(a.defaults):], a.defaults):
+        env.setdefault(name, d)
+    for x, d in zip(a.kwonlyargs, a.kw_defaults):
+        if d is not None:
+            env.setdefault(x.arg, d)
+    if any(p not in env for p in params):
+        return None
+    return env
+
+
+def _value_cases(ck, fa: FA, lits, value, env, depth=3):
+    """[(literals, expression)] for a value on a path: conditional expressions split into their cases, and a call of
+    a private helper of the same class replaced by what the helper returns (per path class of the helper, its tests
+    read over the caller's bindings).  Cases that contradict the path's literals are dropped."""
+    out = []
+    for (l, e) in _alts(value):
+        if not _consistent(lits, l):
+            continue
+        ll = lits + [x for x in l if x not in lits]
+        callee = _class_method(ck, fa.fi, e) if isinstance(e, ast.Call) and depth > 0 else None
+        bound = _bind(callee, e) if callee is not None else None
+        if bound is None:
+            out.append((ll, e))
+            continue
+        env0 = {k: v for k, v in env.items() if k.startswith("self.")}
+        env0.update(bound)
+        cfa = FA(ck, callee)
+        ps = _sym_paths(cfa, env0)
+        if ps is None:
+            out.append((ll, e))
+            continue
+        for p in ps:
+            if p.end not in ("return", "exit") or not _consistent(ll, p.lits):
+                continue
+            out += _value_cases(ck, cfa, ll + [x for x in p.lits if x not in ll], p.value, p.env, depth - 1)
+    return out
+
+
+def _final_cases(ck, fa: FA, paths, target):
+    """[(literals, expression | None)] : what `target` holds at the end of every path (None = never assigned)."""
+    out = []
+    for p in paths:
+        v = p.env.get(target)
+        if v is None:
+            out.append((p.lits, None))
+        else:
+            out += _value_cases(ck, fa, p.lits, v, p.env)
+    return out
+
+
+# =====================================================================================================
+# what a constructor chain reads from the configuration; what a to_dict writes
+# =====================================================================================================
+def _config_reads(ck, cls, membership=False):
+    """Keys read from the configuration object anywhere in the constructor chain of cls: `.get(K)` / `[K]`
+    (/ `K in`) on anything that IS the configuration object there — the parameter, `self.config`, a local bound to
+    either (also through `x if x is not None else {}`), a parameter of a private helper that receives it."""
     keys = set()
+    seen = set()
+
+    def scan(fi, cfg_params, depth):
+        tag = (fi.qual, tuple(sorted(cfg_params)))
+        if tag in seen or depth > 3:
+            return
+        seen.add(tag)
+        fa = FA(ck, fi)
+
+        def is_cfg(e, at, stack=()):
+            """True (the configuration object) / 'empty' (an empty dict standing in for it) / False"""
+            if _is_empty_dict(e):
+                return "empty"
+            if isinstance(e, ast.Attribute):
+                return A.dotted(e) == "self.config"
+            if isinstance(e, ast.IfExp):
+                r = [is_cfg(e.body, at, stack), is_cfg(e.orelse, at, stack)]
+                return all(r) and (True in r)
+            if isinstance(e, ast.BoolOp) and isinstance(e.op, ast.Or):
+                r = [is_cfg(x, at, stack) for x in e.values]
+                return all(r) and (True in r)
+            if isinstance(e, ast.Name):
+                ds = fa.df.reaching(at, e.id)
+                if not ds:
+                    return False
+                r = []
+                for d in ds:
+                    if d.kind == "param":
+                        r.append(e.id in cfg_params)
+                    elif d.kind == "assign" and d.value is not None and (d.node, d.name) not in stack:
+                        r.append(is_cfg(d.value, d.node, stack + ((d.node, d.name),)))
+                    else:
+                        r.append(False)
+                return all(r) and (True in r)
+            return False
+
+        def key_consts(k, at):
+            """the constant key(s) an expression denotes: a string constant, or the variable of a loop over a literal
+            tuple / list of string constants"""
+            if A.const_str(k) is not None:
+                return [A.const_str(k)]
+            if isinstance(k, ast.Name):
+                ds = fa.df.reaching(at, k.id)
+                if len(ds) == 1 and ds[0].kind == "for" and isinstance(ds[0].stmt, ast.For) and isinstance(ds[0].stmt.target, ast.Name) \
+                        and isinstance(ds[0].value, (ast.Tuple, ast.List)) and ds[0].value.elts and all(A.const_str(x) is not None for x in ds[0].value.elts):
+                    return [A.const_str(x) for x in ds[0].value.elts]
+            return []
+
+        for n in A.walk_body(fi.node):
+            if not isinstance(n, (ast.Call, ast.Subscript, ast.Compare)):
+                continue
+            ids = fa.nodes(n)
+            if not ids:
+                continue
+            at = ids[0]
+            if isinstance(n, ast.Call) and A.call_attr(n) == "get" and n.args and key_consts(n.args[0], at) and is_cfg(A.call_recv(n), at) is True:
+                keys.update(key_consts(n.args[0], at))
+            elif isinstance(n, ast.Subscript) and isinstance(n.ctx, ast.Load) and key_consts(n.slice, at) and is_cfg(n.value, at) is True:
+                keys.update(key_consts(n.slice, at))
+            elif isinstance(n, ast.Compare) and membership and len(n.ops) == 1 and isinstance(n.ops[0], (ast.In, ast.NotIn)) \
+                    and key_consts(n.left, at) and is_cfg(n.comparators[0], at) is True:
+                keys.update(key_consts(n.left, at))
+            if isinstance(n, ast.Call):
+                callee = _class_method(ck, fi, n)
+                bound = _bind(callee, n) if callee is not None else None
+                if bound is not None:
+                    scan(callee, {p for p, a_ in bound.items() if is_cfg(a_, at) is True}, depth + 1)
+
     for c in ck.repo.mro(cls):
         init = c.methods.get("__init__")
-        if init is None:
-            continue
-        for n in A.walk_body(init.node):
-            if isinstance(n, ast.Call) and A.call_attr(n) == "get" and A.norm(A.call_recv(n)) in ("config", "self.config") and n.args and A.const_str(n.args[0]):
-                keys.add(A.const_str(n.args[0]))
-            if isinstance(n, ast.Subscript) and A.norm(n.value) in ("config", "self.config") and A.const_str(n.slice) and isinstance(n.ctx, ast.Load):
-                keys.add(A.const_str(n.slice))
+        if init is not None:
+            scan(init, {"config"} & set(init.params), 0)
     return keys
 
 
-def _dict_writes(fa: FA, var=None):
-    """Keys written into the dict that the function returns (or into `var`)."""
-    keys = set()
-    if var is None:
-        rn = {r.value.id for r in A.walk_body(fa.node) if isinstance(r, ast.Return) and isinstance(r.value, ast.Name)}
-        var = sorted(rn)[0] if len(rn) == 1 else "config"
-        for r in A.walk_body(fa.node):
-            if isinstance(r, ast.Return) and isinstance(r.value, ast.Dict):
-                keys |= {A.const_str(k) for k in r.value.keys if A.const_str(k)}
-    for n in A.walk_body(fa.node):
-        if isinstance(n, ast.Assign):
-            for t in n.targets:
-                if isinstance(t, ast.Subscript) and A.norm(t.value) == var and A.const_str(t.slice):
-                    keys.add(A.const_str(t.slice))
-            if any(isinstance(t, ast.Name) and t.id == var for t in n.targets) and isinstance(n.value, ast.Dict):
-                keys |= {A.const_str(k) for k in n.value.keys if A.const_str(k)}
-    return keys
+class _Entry:
+    __slots__ = ("key", "value", "conditional", "stmt", "how")
+
+    def __init__(self, key, value, conditional, stmt, how):
+        self.key, self.value, self.conditional, self.stmt, self.how = key, value, conditional, stmt, how
 
 
+def _dump_entries(fa: FA):
+    """Every (key, value) the dictionary returned by a to_dict can carry, however it is put there: a dict display
+    / dict(k=v) that is returned or bound to the returned name, `d[K] = v`, `d.update({...})` / `d.update(k=v)` /
+    `d.update({k: v for k, v in ((K1, v1), ...) if ...})`, `d.setdefault(K, v)`.  `conditional` says whether the
+    entry is written on every call."""
+    entries = []
+    names = {r.value.id for r in fa.returns() if isinstance(r.value, ast.Name)}
+
+    def bases(e):
+        """names of dictionaries an expression copies its entries from: {**x}, dict(x, ...), x.copy(), x | y"""
+        if isinstance(e, ast.Name):
+            return {e.id}
+        if isinstance(e, ast.Dict):
+            return {v.id for k, v in zip(e.keys, e.values) if k is None and isinstance(v, ast.Name)}
+        if isinstance(e, ast.Call) and isinstance(e.func, ast.Name) and e.func.id == "dict":
+            return {a_.id for a_ in e.args if isinstance(a_, ast.Name)} | {k.value.id for k in e.keywords if k.arg is None and isinstance(k.value, ast.Name)}
+        if isinstance(e, ast.Call) and A.call_attr(e) == "copy" and isinstance(A.call_recv(e), ast.Name) and not e.args:
+            return {A.call_recv(e).id}
+        if isinstance(e, ast.BinOp) and isinstance(e.op, ast.BitOr):
+            return bases(e.left) | bases(e.right)
+        return set()
+
+    for r in fa.returns():
+        if r.value is not None:
+            names |= bases(r.value)
+    grew = True
+    while grew:
+        grew = False
+        for st in fa.stmts(ast.Assign):
+            if any(isinstance(t, ast.Name) and t.id in names for t in st.targets):
+                new = bases(st.value) - names
+                if new:
+                    names |= new
+                    grew = True
+
+    def cond(st):
+        c = fa.conditions(st)
+        return c is None or c != {frozenset()}
+
+    def expanded(e, st):
+        try:
+            return fa.expand(e, (fa.nodes(st) or [None])[0])
+        except AnalysisError:
+            return e
+
+    def from_mapping(e, st, conditional, how):
+        if isinstance(e, ast.Dict):
+            for k, v in zip(e.keys, e.values):
+                if k is None:
+                    from_mapping(v, st, conditional, how)
+                elif A.const_str(k) is not None:
+                    entries.append(_Entry(A.const_str(k), v, conditional, st, how))
+        elif isinstance(e, ast.Call) and isinstance(e.func, ast.Name) and e.func.id == "dict":
+            for a_ in e.args:
+                from_mapping(a_, st, conditional, how)
+            for k in e.keywords:
+                if k.arg is not None:
+                    entries.append(_Entry(k.arg, k.value, conditional, st, how))
+                else:
+                    from_mapping(k.value, st, conditional, how)
+        elif isinstance(e, ast.DictComp) and len(e.generators) == 1 and isinstance(e.key, ast.Name):
+            g = e.generators[0]
+            it = g.iter
+            tg = g.target
+            if isinstance(it, (ast.Tuple, ast.List)) and isinstance(tg, (ast.Tuple, ast.List)) and tg.elts and A.norm(tg.elts[0]) == e.key.id:
+                for pair in it.elts:
+                    if isinstance(pair, (ast.Tuple, ast.List)) and pair.elts and A.const_str(pair.elts[0]) is not None:
+                        entries.append(_Entry(A.const_str(pair.elts[0]), pair.elts[1] if len(pair.elts) > 1 else None,
+                                              conditional or bool(g.ifs), st, how))
+
+    for r in fa.returns():
+        if r.value is not None and not isinstance(r.value, ast.Name):
+            from_mapping(expanded(r.value, r), r, cond(r), "literal")
+    for st in fa.stmts():
+        if isinstance(st, (ast.Assign, ast.AnnAssign)) and getattr(st, "value", None) is not None:
+            tg = st.targets if isinstance(st, ast.Assign) else [st.target]
+            for t in tg:
+                if isinstance(t, ast.Name) and t.id in names:
+                    from_mapping(st.value if isinstance(st.value, (ast.Dict, ast.Call)) else expanded(st.value, st), st, cond(st), "literal")
+                if isinstance(t, ast.Subscript) and isinstance(t.value, ast.Name) and t.value.id in names:
+                    if A.const_str(t.slice) is not None:
+                        entries.append(_Entry(A.const_str(t.slice), st.value, cond(st), st, "store"))
+                    elif isinstance(t.slice, ast.Name):
+                        # `for key, value in (("a", self.a), ("b", self.b)): ... d[key] = value`
+                        loop = fa.enclosing(st, ast.For)
+                        while loop is not None and not any(isinstance(x, ast.Name) and x.id == t.slice.id for x in ast.walk(loop.target)):
+                            loop = fa.enclosing(loop, ast.For)
+                        if loop is not None and isinstance(loop.iter, (ast.Tuple, ast.List)):
+                            tgt = loop.target.elts if isinstance(loop.target, (ast.Tuple, ast.List)) else [loop.target]
+                            pos = [i for i, x in enumerate(tgt) if isinstance(x, ast.Name) and x.id == t.slice.id]
+                            for item in loop.iter.elts:
+                                parts = item.elts if isinstance(item, (ast.Tuple, ast.List)) and isinstance(loop.target, (ast.Tuple, ast.List)) else [item]
+                                if pos and pos[0] < len(parts) and A.const_str(parts[pos[0]]) is not None:
+                                    inner = fa.enclosing(st, ast.If)
+                                    entries.append(_Entry(A.const_str(parts[pos[0]]), parts[1] if len(parts) > 1 else None,
+                                                          inner is not None and fa.inside(inner, loop) or cond(loop), st, "store"))
+        elif isinstance(st, ast.Expr) and isinstance(st.value, ast.Call) and isinstance(st.value.func, ast.Attribute) \
+                and isinstance(st.value.func.value, ast.Name) and st.value.func.value.id in names:
+            c = st.value
+            if c.func.attr == "update":
+                for a_ in c.args:
+                    from_mapping(expanded(a_, st), st, cond(st), "store")
+                for k in c.keywords:
+                    if k.arg is not None:
+                        entries.append(_Entry(k.arg, k.value, cond(st), st, "store"))
+            elif c.func.attr == "setdefault" and c.args and A.const_str(c.args[0]) is not None:
+                entries.append(_Entry(A.const_str(c.args[0]), c.args[1] if len(c.args) > 1 else None, True, st, "store"))
+    return entries
+
+
+# =====================================================================================================
+# R2: base_dir
+# =====================================================================================================
 def check_base_dir_final_before_use(ck, R):
     """`base_dir` follows the same precedence as every other option (argument over configuration), and the relative
-    cluster / repository files are resolved against the value that results: no assignment to self.base_dir can
-    follow a _load_config(self.base_dir, ...) in the constructors."""
+    cluster / repository files are resolved against the value that results: on every path class, the directory
+    handed to _load_config(...) inside the constructor is the value self.base_dir finally holds."""
     for q in ("configuration.ConfigurationRepository.__init__", "configuration.Environment.__init__"):
         fa = FA(ck, q)
-        loads = [c for c in fa.calls("_load_config") if c.args and "self.base_dir" in fa.xnorm(c.args[0])]
+        lcf = ck.repo.try_func("configuration._load_config")
+        first = lcf.params[0] if lcf is not None and lcf.params else "base_dir"
+        loads = [c for c in fa.calls("_load_config") if A.arg_or_kw(c, 0, first) is not None]
         stores = [s for s in fa.stmts(ast.Assign) if any(A.dotted(t) == "self.base_dir" for t in s.targets)]
-        ck.need(loads and stores, "%s: _load_config(self.base_dir, ...) / self.base_dir assignment not found" % q)
+        ck.need(loads and stores, "%s: _load_config(<base dir>, ...) / self.base_dir assignment not found" % q)
+        finals = _sym_paths(fa)
+        ck.need(finals is not None, "%s: too many paths" % q)
+        fin = [(l, v) for (l, v) in _final_cases(ck, fa, finals, "self.base_dir")]
         late = []
         for c in loads:
-            for i in fa.nodes(c):
-                r = fa.cfg.reach([i], include_start=False)
-                for s_ in stores:
-                    if not (set(fa.nodes(s_)) & r):
-                        continue
-                    # harmless if the same value was already stored, under the same guard, before the load
-                    g_ = fa.enclosing(s_, ast.If)
-                    twin = [e_ for e_ in stores if e_ is not s_ and A.norm(e_.value) == A.norm(s_.value)
-                            and A.norm(getattr(fa.enclosing(e_, ast.If), "test", None)) == A.norm(getattr(g_, "test", None))
-                            and all(fa.cfg.must_pass(fa.nodes(fa.enclosing(e_, ast.If).test if fa.enclosing(e_, ast.If) is not None else e_), i2) for i2 in fa.nodes(c))]
-                    if not twin:
-                        late.append(s_)
+            uses = _sym_paths(fa, stops=fa.nodes(c))
+            ck.need(uses is not None, "%s: too many paths" % q)
+            for u in uses:
+                if u.end != "stop":
+                    continue
+                for (ul, uv) in _value_cases(ck, fa, u.lits, _subst(A.arg_or_kw(c, 0, first), u.env), u.env):
+                    for (fl, fv) in fin:
+                        if not _consistent(ul, fl):
+                            continue
+                        if fv is None or A.norm(fv) != A.norm(uv):
+                            late.append((c, uv, fv))
         ck.ob(R, fa.key(None, "base-dir-final-before-use"), not late,
               "relative files are loaded against the final base_dir" if not late else
-              "`%s` runs after relative files were already loaded with self.base_dir: an explicit base_dir argument does not apply to the files the "
-              "constructor itself loads (they are looked up under the configuration's base_dir, or not found at all)" % A.short(late[0], 50),
-              fa.where(late[0]) if late else fa.where())
+              "`%s` resolves relative files against `%s` while self.base_dir ends up as `%s`: an explicit base_dir argument does not apply to the "
+              "files the constructor itself loads (they are looked up under the configuration's base_dir, or not found at all)"
+              % (A.short(late[0][0], 50), A.short(late[0][1], 40), A.short(late[0][2], 40) if late[0][2] is not None else "<unset>"),
+              fa.where(late[0][0]) if late else fa.where())
 
 
 def check_config_not_mutated(ck, R):
@@ -110,6 +689,15 @@ def check_config_not_mutated(ck, R):
                     continue
                 fa = FA(ck, m)
                 n += 1
+                # a local that IS the caller's object (`cfg = config`, `cfg = {} if config is None else config`)
+                grew = True
+                while grew:
+                    grew = False
+                    for st in fa.stmts(ast.Assign):
+                        if len(st.targets) == 1 and isinstance(st.targets[0], ast.Name) and st.targets[0].id not in params \
+                                and any(isinstance(b, ast.Name) and b.id in params for b in _branches(st.value)):
+                            params.append(st.targets[0].id)
+                            grew = True
                 muts = param_mutations(fa, params)
                 ck.ob(R, fa.key(None, "config-not-mutated"), not muts,
                       "%s does not modify the configuration object it is given" % m.qual if not muts else
@@ -119,6 +707,375 @@ def check_config_not_mutated(ck, R):
     ck.need(n >= 4, "config-not-mutated: only %d constructors with a configuration parameter found" % n)
 
 
+# =====================================================================================================
+# R2: argument over configuration, per constructor parameter
+# =====================================================================================================
+def _precedence(ck, R2, q):
+    """For every constructor parameter p that is stored somewhere (a field or a local that also receives a value read
+    from the configuration): on no path class does a configuration-derived value end up there unless `p is None`,
+    and on some path class p itself does.  -> number of (parameter, slot) pairs decided."""
+    fa = FA(ck, q)
+    paths = _sym_paths(fa)
+    ck.need(paths is not None, "%s: too many paths" % q)
+    paths = [p for p in paths if p.end == "exit"]
+    n = 0
+    for p in fa.fi.params:
+        if p in ("self", "config"):
+            continue
+        slots = {}
+        for s in fa.stmts(ast.Assign):
+            if len(s.targets) != 1:
+                continue
+            t = s.targets[0]
+            if not (isinstance(t, ast.Name) or (A.dotted(t) or "").startswith("self.")):
+                continue
+            br = _branches(s.value)
+            if any(isinstance(b, ast.Name) and b.id == p for b in br) and A.norm(t) != p:
+                slots.setdefault(A.norm(t), s)
+            elif A.norm(t) == p and _mentions_config(s.value):
+                slots.setdefault(p, s)
+        for slot, first in sorted(slots.items()):
+            cases = _final_cases(ck, fa, paths, slot)
+            from_cfg = [(l, v) for (l, v) in cases if v is not None and _mentions_config(v) and not (isinstance(v, ast.Name) and v.id == p)]
+            if not from_cfg:
+                continue
+            n += 1
+            is_arg = [(l, v) for (l, v) in cases if (v is None and slot == p) or (isinstance(v, ast.Name) and v.id == p)]
+            bad = [(l, v) for (l, v) in from_cfg if ("%s is None" % p, True) not in l]
+            ok = bool(is_arg) and not bad
+            ck.ob(R2, fa.key(None, "override:" + p), ok, "argument %s overrides the configured value" % p if ok else
+                  ("the configured value `%s` ends up in %s although the explicit argument %s was given: the file overrides the argument"
+                   % (A.short(bad[0][1], 50), slot, p) if bad else
+                   "%s never ends up holding the explicit argument %s: the configured value is assigned after it" % (slot, p)), fa.where(first))
+    return n
+
+
+def _cluster_backend_precedence(ck, R2, cfgm):
+    """FunctionCluster: the storage / runner is the explicit object when one is given; otherwise the backend created
+    from the configured section (its 'type' and the section itself) when the configuration has one; otherwise the
+    default type with the default configuration."""
+    fc = FA(ck, "configuration.FunctionCluster.__init__")
+    paths = _sym_paths(fc)
+    ck.need(paths is not None, "FunctionCluster.__init__: too many paths")
+    paths = [p for p in paths if p.end == "exit"]
+    for what, factory in (("storage", "StorageBackend"), ("runner", "RunnerBackend")):
+        cases = _final_cases(ck, fc, paths, "self." + what)
+        why = None
+        if not any(isinstance(v, ast.Name) and v.id == what for (l, v) in cases if v is not None):
+            why = "the explicit %s object is never used" % what
+        n_default = n_configured = 0
+        member = "'%s' in config" % what
+        for (l, v) in cases:
+            if why:
+                break
+            if v is None:
+                why = "self.%s is not assigned on some path" % what
+                break
+            if isinstance(v, ast.Name) and v.id == what:
+                continue
+            lits = {(re.sub(r"\bself\.config\b", "config", t), pol) for (t, pol) in l}
+            if ("%s is None" % what, True) not in lits:
+                why = "`%s` is used although an explicit %s was given" % (A.short(v, 50), what)
+            elif not (isinstance(v, ast.Call) and A.call_dotted(v) == factory + ".create" and len(v.args) == 2 and not v.keywords):
+                why = "`%s` is not %s.create(type, config)" % (A.short(v, 50), factory)
+            else:
+                a0, a1 = (re.sub(r"\bself\.config\b", "config", A.norm(x)) for x in v.args)
+                dflt_t = "_DEFAULT_%s_TYPE" % what.upper()
+                dflt_c = "_DEFAULT_%s_CONFIG" % what.upper()
+                consts = {dflt_t: cfgm.assigns.get(dflt_t), dflt_c: cfgm.assigns.get(dflt_c)}
+                is_default = (a0 == dflt_t or (consts[dflt_t] is not None and a0 == A.norm(consts[dflt_t]))) and \
+                             (a1 == dflt_c or (consts[dflt_c] is not None and a1 == A.norm(consts[dflt_c])))
+                is_configured = a1 == "config['%s']" % what and a0 == "config['%s']['type']" % what
+                if is_default and (member, False) in lits:
+                    n_default += 1
+                elif is_configured and (member, True) in lits:
+                    n_configured += 1
+                else:
+                    why = "`%s` is neither the configured backend under \"'%s' in config\" nor the default without it" % (A.short(v, 60), what)
+        if not why and not (n_default and n_configured):
+            why = "no path creates the %s backend" % ("default" if not n_default else "configured")
+        ck.ob(R2, fc.key(None, what + "-precedence"), not why, "%s: argument, else configured type+config, else default" % what if not why else
+              "the cluster's %s is not chosen as argument > configuration > default: %s" % (what, why), fc.where())
+
+
+# =====================================================================================================
+# R3: create()
+# =====================================================================================================
+def _registry_name(ck, q):
+    """The module-level table that register() stores into (found by what register() does)."""
+    fa = FA(ck, q)
+    names = set()
+    for s in fa.stmts(ast.Assign):
+        for t in s.targets:
+            if isinstance(t, ast.Subscript) and isinstance(t.value, ast.Name) and not (len(fa.fi.params) > 1 and t.value.id in fa.fi.params):
+                names.add(t.value.id)
+    for c in fa.calls():
+        if A.call_attr(c) in ("__setitem__", "setdefault", "update") and isinstance(A.call_recv(c), ast.Name):
+            names.add(A.call_recv(c).id)
+    return fa.one(sorted(names), "registry table written by register()")
+
+
+def _create_rule(ck, R3):
+    for q in ("storage.StorageBackend.create", "runner.RunnerBackend.create"):
+        fa = FA(ck, q)
+        reg = _registry_name(ck, q.rsplit(".", 1)[0] + ".register")
+        params = [p for p in fa.fi.params if p not in ("cls", "self")]
+        ck.need(len(params) == 2, "%s: expected (type, config) parameters" % q)
+        tp, cp = params
+        paths = _sym_paths(fa)
+        ck.need(paths is not None, "%s: too many paths" % q)
+        why = None
+        n = 0
+        for p in paths:
+            for (l, v) in _value_cases(ck, fa, p.lits, p.value, p.env):
+                n += 1
+                if not (isinstance(v, ast.Call) and len(v.args) == 1 and not v.keywords and A.norm(v.args[0]) == cp):
+                    why = "`%s` does not pass the configuration object to the registered class" % A.short(v, 60)
+                    continue
+                f = v.func
+                looked_up = guarded = False
+                if isinstance(f, ast.Subscript) and A.norm(f.value) == reg and A.norm(f.slice) == tp:
+                    looked_up = guarded = True  # an unknown type raises by itself
+                elif isinstance(f, ast.Call) and A.call_attr(f) == "get" and A.norm(A.call_recv(f)) == reg and len(f.args) == 1 and A.norm(f.args[0]) == tp:
+                    looked_up = True
+                    guarded = ("%s in %s" % (tp, reg), True) in l or ("%s is None" % A.norm(f), False) in l
+                if not looked_up:
+                    why = "`%s` is not the class registered under the requested type" % A.short(f, 60)
+                elif not guarded:
+                    why = "an unregistered type is not refused before `%s`" % A.short(v, 60)
+        okc = n > 0 and why is None
+        ck.ob(R3, fa.key(None), okc, "create() instantiates the registered class with the configuration" if okc else
+              "create() does not instantiate the registered class with the configuration object%s" % (": " + why if why else ""), fa.where())
+
+
+# =====================================================================================================
+# R4: cluster search
+# =====================================================================================================
+def _first_match(ck, R4):
+    gc = FA(ck, "configuration.Environment.get_cluster")
+    nm = [p for p in gc.fi.params if p != "self"][0]
+    cfg = gc.cfg
+    heads = [n for n in cfg.nodes if n.kind == "for" and n.id in cfg.reachable_nodes()]
+    over_repos = [n for n in heads if any(A.dotted(x) == "self.repos" for x in ast.walk(n.ast.iter))]
+    why = None
+    where = gc.where()
+    lazy_ok = set()  # texts of `next((r.clusters[name] for r in self.repos if name in r.clusters), None)`: first match by construction
+    if not over_repos:
+        comp = [x for x in A.walk_body(gc.node) if isinstance(x, (ast.ListComp, ast.GeneratorExp, ast.SetComp, ast.DictComp))
+                and any(A.dotted(y) == "self.repos" for y in ast.walk(x))]
+        for x in comp:
+            call = gc.pm.get(x)
+            g = x.generators[0]
+            lv = A.norm(g.target)
+            shape = isinstance(x, ast.GeneratorExp) and isinstance(call, ast.Call) and A.call_dotted(call) == "next" and len(call.args) == 2 \
+                and call.args[0] is x and not call.keywords and len(x.generators) == 1
+            ck.need(shape, "get_cluster: the search over self.repos is a comprehension of a shape this rule cannot decide")
+            if not A.is_none(call.args[1]):
+                why = "without a hit the function returns `%s`, not None" % A.short(call.args[1], 40)
+            elif A.norm(g.iter) != "self.repos":
+                why = "the repositories are searched as `%s`, not in self.repos order" % A.norm(g.iter)
+            elif not (A.norm(x.elt) == "%s.clusters[%s]" % (lv, nm) and [A.norm(c) for c in g.ifs] == ["%s in %s.clusters" % (nm, lv)]):
+                why = "`%s` does not yield the cluster of the first repository defining the name" % A.short(x, 60)
+            else:
+                lazy_ok.add(A.norm(call))
+    if lazy_ok or (why and not over_repos):
+        pass
+    elif len(over_repos) != 1:
+        why = "%d loops over self.repos" % len(over_repos)
+    else:
+        head = over_repos[0]
+        loop = head.ast
+        it = gc.xnorm(loop.iter, head.id)
+        lv = A.norm(loop.target)
+        if it not in ("self.repos", "list(self.repos)", "tuple(self.repos)", "self.repos[:]"):
+            why = "the repositories are searched as `%s`, not in self.repos order" % it
+        hits = []  # (stmt, node ids)
+        for s in A.walk_local(loop):
+            if not isinstance(s, (ast.Return, ast.Assign)) or s.value is None or why:
+                continue
+            if isinstance(s, ast.Assign) and not (len(s.targets) == 1 and isinstance(s.targets[0], ast.Name)):
+                continue
+            ids = gc.nodes(s)
+            if not ids:
+                continue
+            v = gc.xnorm(s.value, ids[0])
+            need = None
+            if v == "%s.clusters[%s]" % (lv, nm):
+                need = ("%s in %s.clusters" % (nm, lv), True)
+            else:
+                m = re.fullmatch(re.escape("%s.clusters.get(%s" % (lv, nm)) + r"(?:, (\w+))?\)", v)
+                if m:
+                    need = ("%s is %s" % (v, m.group(1) or "None"), False)
+            if need is None:
+                if isinstance(s, ast.Return):
+                    why = "`%s` inside the search loop does not return the cluster of the repository at hand" % A.short(s, 50)
+                    where = gc.where(s)
+                continue
+            conds = gc.conditions(s)
+            if isinstance(s, ast.Assign) and not (conds and all(need in c for c in conds)):
+                continue  # a probe (`hit = repo.clusters.get(name, MISSING)`), not yet an answer
+            if conds is None or not conds or not all(need in c for c in conds):
+                why = "`%s` is not guarded by the repository defining the cluster" % A.short(s, 50)
+                where = gc.where(s)
+                continue
+            hits.append((s, ids))
+        if not why and not hits:
+            why = "no statement in the loop yields %s.clusters[%s]" % (lv, nm)
+        hit_nodes = [i for (_s, ids) in hits for i in ids]
+        for (s, ids) in hits:
+            if why or isinstance(s, ast.Return):
+                continue
+            r = s.targets[0].id
+            after = cfg.reach(ids, include_start=False, edge_ok=lambda a, b, l: l != "exc")
+            if head.id in after:
+                why = "the search goes on after a hit (`%s`): a later repository overrides an earlier one" % A.short(s, 50)
+                where = gc.where(s)
+                continue
+            for i in after:
+                a = cfg.node(i).ast
+                if cfg.node(i).kind != "stmt":
+                    continue
+                if isinstance(a, ast.Return) and not (isinstance(a.value, ast.Name) and a.value.id == r):
+                    why = "after the hit `%s` the function returns `%s`" % (A.short(s, 40), A.short(a.value, 30))
+                if isinstance(a, (ast.Assign, ast.AugAssign)) and any(isinstance(x, ast.Name) and x.id == r and isinstance(x.ctx, ast.Store) for x in ast.walk(a)):
+                    why = "the hit is overwritten by `%s`" % A.short(a, 40)
+        if not why:
+            # no hit: None
+            miss = cfg.reach([head.id], removed=hit_nodes, edge_ok=lambda a, b, l: l != "exc")
+            for i in miss:
+                a = cfg.node(i).ast
+                if cfg.node(i).kind != "stmt" or not isinstance(a, ast.Return) or a.value is None or A.is_none(a.value):
+                    continue
+                ok_none = False
+                if isinstance(a.value, ast.Name):
+                    ds = [d for d in gc.df.reaching(i, a.value.id) if d.node not in hit_nodes and (d.node == -1 or head.id in cfg.reach([d.node]))]
+                    ok_none = bool(ds) and all(d.kind == "assign" and d.value is not None and A.is_none(d.value) for d in ds)
+                if not ok_none:
+                    why = "without a hit the function returns `%s`, not None" % A.short(a.value, 40)
+                    where = gc.where(a)
+    # every answer that does not come out of the search is the default cluster, for "no name" only (a remembered
+    # answer returned before / instead of the search is not the first repository *now* defining the name)
+    head_ids = {n.id for n in over_repos}
+    paths = _sym_paths(gc, observe=lambda nd, env: "searched" if nd.id in head_ids else None)
+    ck.need(paths is not None, "get_cluster: too many paths")
+    for p in paths:
+        if why or "searched" in p.obs:
+            continue
+        for (l, v) in _value_cases(ck, gc, p.lits, p.value, p.env):
+            if A.norm(v) in lazy_ok and ("%s is None" % nm, False) in l:
+                continue
+            if not (("%s is None" % nm, True) in l and A.norm(v) == "self.default_cluster"):
+                why = "`%s` is returned without searching the repositories" % A.short(v, 50)
+                if p.end == "return":
+                    where = gc.where(cfg.node(p.node).ast)
+    ok = why is None
+    ck.ob(R4, gc.key(None, "first-match"), ok, "repositories are searched in order; the first that defines the cluster wins; None otherwise" if ok else
+          "get_cluster does not return the first repository (in self.repos order) defining the cluster, or None: %s" % why, where)
+    # no name: the default cluster
+    dflt = [p for p in paths if p.has("%s is None" % nm, True)]
+    vals = [A.norm(v) for p in dflt for (l, v) in _value_cases(ck, gc, p.lits, p.value, p.env)]
+    okd = bool(vals) and all(v == "self.default_cluster" for v in vals)
+    ck.ob(R4, gc.key(None, "default-cluster"), okd, "no name means the default cluster" if okd else "get_cluster(None) does not return the default cluster", gc.where())
+
+
+def _priority_ends(ck, R4):
+    pr = FA(ck, "configuration.Environment.prepend_repo")
+    ap = FA(ck, "configuration.Environment.append_repo")
+
+    def shapes(fa):
+        p = [x for x in fa.fi.params if x != "self"][0]
+        found = set()
+        for c in fa.calls():
+            if A.norm(A.call_recv(c)) != "self.repos":
+                continue
+            args = [fa.xnorm(a_) for a_ in c.args]
+            if A.call_attr(c) == "insert" and args == ["0", p]:
+                found.add("front")
+            elif A.call_attr(c) == "insert":
+                found.add("other")
+            elif A.call_attr(c) == "append" and args == [p]:
+                found.add("back")
+            elif A.call_attr(c) == "extend" and args in (["[%s]" % p], ["(%s,)" % p]):
+                found.add("back")
+        for s in fa.stmts((ast.Assign, ast.AugAssign)):
+            tg = s.targets if isinstance(s, ast.Assign) else [s.target]
+            v = fa.xnorm(s.value)
+            for t in tg:
+                if A.norm(t) == "self.repos[:0]" and v == "[%s]" % p:
+                    found.add("front")
+                if A.norm(t) != "self.repos":
+                    continue
+                if isinstance(s, ast.AugAssign):
+                    found.add("back" if isinstance(s.op, ast.Add) and v in ("[%s]" % p, "(%s,)" % p) else "other")
+                elif v in ("[%s] + self.repos" % p, "[%s, *self.repos]" % p):
+                    found.add("front")
+                elif v in ("self.repos + [%s]" % p, "[*self.repos, %s]" % p):
+                    found.add("back")
+                else:
+                    found.add("other")
+        return found
+
+    okp = shapes(pr) == {"front"} and shapes(ap) == {"back"}
+    ck.ob(R4, pr.key(None, "priority-ends"), okp, "prepend = highest priority, append = lowest" if okp else
+          "prepend_repo / append_repo do not insert at the front / back of self.repos", pr.where())
+
+
+def _repo_order(ck, R4):
+    """Environment.__init__: the configured repositories are built by ONE pass over the 'repos' list of the
+    configuration, in list order (a comprehension without filter, or a loop that appends)."""
+    ei = FA(ck, "configuration.Environment.__init__")
+
+    def reads_repos(e, at):
+        try:
+            x = _strip_default(ei.expand(e, at))
+        except AnalysisError:
+            x = e
+        k = None
+        if isinstance(x, ast.Call) and A.call_attr(x) == "get" and x.args:
+            k, recv = A.const_str(x.args[0]), A.call_recv(x)
+        elif isinstance(x, ast.Subscript):
+            k, recv = A.const_str(x.slice), x.value
+        elif isinstance(x, ast.IfExp) and isinstance(x.body, ast.Subscript) and (_is_empty_dict(x.orelse) or (isinstance(x.orelse, (ast.List, ast.Tuple)) and not x.orelse.elts)):
+            k, recv = A.const_str(x.body.slice), x.body.value
+        if k != "repos":
+            return False
+        return A.norm(_strip_default(recv)) in ("config", "self.config")
+
+    def mentions_repos_key(e):
+        return any(A.const_str(x) == "repos" for x in ast.walk(e))
+
+    good, bad = [], []
+    for n in A.walk_body(ei.node):
+        if isinstance(n, ast.ListComp):
+            ids = ei.nodes(n)
+            if not ids or not any(mentions_repos_key(g.iter) or reads_repos(g.iter, ids[0]) for g in n.generators):
+                continue
+            g = n.generators[0]
+            if len(n.generators) == 1 and not g.ifs and reads_repos(g.iter, ids[0]):
+                good.append(n)
+            else:
+                bad.append(n)
+        elif isinstance(n, (ast.SetComp, ast.DictComp, ast.GeneratorExp)) and any(mentions_repos_key(g.iter) for g in n.generators):
+            bad.append(n)
+    for h in ei.cfg.nodes:
+        if h.kind != "for" or h.id not in ei.cfg.reachable_nodes():
+            continue
+        loop = h.ast
+        if not (mentions_repos_key(loop.iter) or reads_repos(loop.iter, h.id)):
+            continue
+        muts = [c for c in A.calls_in(loop) if A.call_attr(c) in ("append", "insert", "extend", "add", "appendleft")
+                and not any(c is x for b in loop.orelse for x in A.calls_in(b))]
+        if reads_repos(loop.iter, h.id) and len(muts) == 1 and A.call_attr(muts[0]) == "append" and ei.enclosing(muts[0], ast.If) is None:
+            good.append(loop)
+        else:
+            bad.append(loop)
+    ck.need(good or bad, "Environment.__init__: no pass over the configured 'repos' list found")
+    okr = len(good) == 1 and not bad
+    ck.ob(R4, ei.key(None, "repo-order"), okr, "configured repositories keep their file order" if okr else
+          "repositories are not loaded in the order of the 'repos' list", ei.where((bad or good)[0]))
+
+
+# =====================================================================================================
 def check(ck):
     from .memo import check_new_memo_tables
     ck.run(check_new_memo_tables, ck, "C18.M1", ('configuration', 'storage', 'storage_filesystem', 'storage_memory'))
@@ -144,7 +1101,8 @@ def check(ck):
         reads = _config_reads(ck, cls)
         td = FA(ck, cls.methods["to_dict"]) if "to_dict" in cls.methods else None
         ck.need(td is not None, "%s.to_dict not found" % cls.qual)
-        dumped = _dict_writes(td)
+        entries = _dump_entries(td)
+        dumped = {e.key for e in entries}
         init = cls.methods.get("__init__")
         if doc:
             for opt in doc:
@@ -165,21 +1123,18 @@ def check(ck):
                           "constructor argument %s has no documented configuration option" % p, A.loc(init, init.node))
         # registry
         reg = [n for n in ast.walk(mod.tree) if isinstance(n, ast.Call) and A.call_attr(n) == "register" and len(n.args) == 2 and A.norm(n.args[1]) == clsname]
-        rname = A.const_str(reg[0].args[0]) if len(reg) == 1 else None
+        rname = _str_const(ck, mod, cls, reg[0].args[0]) if len(reg) == 1 else None
         sup = []
         if init is not None:
             sup = [c for c in A.body_calls(init.node) if A.call_attr(c) == "__init__" and isinstance(A.call_recv(c), ast.Call) and A.call_attr(A.call_recv(c)) == "super"]
-        sname = A.const_str(sup[0].args[0]) if sup and sup[0].args else None
-        tname = None
-        for n in A.walk_body(td.node):
-            if isinstance(n, ast.Dict):
-                for k, v in zip(n.keys, n.values):
-                    if A.const_str(k) == "type":
-                        tname = A.const_str(v)
-            if isinstance(n, ast.Assign) and len(n.targets) == 1 and isinstance(n.targets[0], ast.Subscript) and A.const_str(n.targets[0].slice) == "type":
-                tname = A.const_str(n.value)
-            if isinstance(n, ast.Call) and A.call_attr(n) in ("dict", "update") and A.kwarg(n, "type") is not None:
-                tname = A.const_str(A.kwarg(n, "type"))
+        sname = None
+        if sup:
+            binit = next((c.methods["__init__"] for c in ck.repo.mro(cls)[1:] if "__init__" in c.methods), None)
+            first = [p for p in binit.params if p != "self"][0] if binit is not None and len(binit.params) > 1 else "storage_type"
+            a0 = A.arg_or_kw(sup[0], 0, first)
+            sname = _str_const(ck, mod, cls, a0) if a0 is not None else None
+        tvals = {_str_const(ck, mod, cls, e.value) for e in entries if e.key == "type"}
+        tname = next(iter(tvals)) if len(tvals) == 1 else None
         # the dump describes the backend AS IT IS: when it starts from the configuration the backend
         # was given (self.config), every option a constructor argument can override has to be
         # overwritten unconditionally, else the as-given value survives wherever the overlay is skipped
@@ -195,14 +1150,9 @@ def check(ck):
         cond_keys = []
         if base_from_given:
             overridable = {ARG_TO_KEY.get(p_, p_) for p_ in (init.params if init is not None else []) if p_ not in ("self", "config")}
-            for st in tdf.stmts(ast.Assign):
-                if len(st.targets) == 1 and isinstance(st.targets[0], ast.Subscript):
-                    k_ = A.const_str(st.targets[0].slice)
-                    if k_ in overridable and tdf.enclosing(st, ast.If) is not None:
-                        cond_keys.append(k_)
-            missing = sorted(overridable - {A.const_str(st.targets[0].slice) for st in tdf.stmts(ast.Assign)
-                                            if len(st.targets) == 1 and isinstance(st.targets[0], ast.Subscript)})
-            cond_keys += missing
+            stored = [e for e in entries if e.how == "store"]
+            cond_keys = [e.key for e in stored if e.key in overridable and e.conditional]
+            cond_keys += sorted(overridable - {e.key for e in stored})
         okb = not cond_keys
         ck.ob(R3, cls.qual + "::dump-from-effective-state", okb,
               "to_dict is built from the backend's effective state" if not base_from_given else
@@ -222,55 +1172,73 @@ def check(ck):
         name = A.const_str(v) if v is not None else None
         ck.ob(R3, "configuration::" + const, name in registered[kind], "default %s type %r is registered" % (kind, name) if name in registered[kind] else
               "default %s type %r is not a registered type" % (kind, name), cfgm.relpath)
-    for q in ("storage.StorageBackend.create", "runner.RunnerBackend.create"):
-        fa = FA(ck, q)
-        txt = A.norm(fa.node)
-        okc = ".get(%s)(config)" % fa.fi.params[1] in txt and "not in" in txt
-        ck.ob(R3, fa.key(None), okc, "create() instantiates the registered class with the configuration" if okc else
-              "create() does not instantiate the registered class with the configuration object", fa.where())
-    # filesystem specifics: path fallback; cache size in MB both ways
+    _create_rule(ck, R3)
+    # filesystem specifics: options forwarded to the base backend; sources rooted at the configured paths
+    fsc = ck.repo.module("storage_filesystem").classes["FilesystemStorageBackend"]
     fsi = FA(ck, "storage_filesystem.FilesystemStorageBackend.__init__")
     sup = fsi.one([c for c in fsi.calls("__init__") if isinstance(A.call_recv(c), ast.Call)], "super().__init__ call")
+    binit = next((c.methods["__init__"] for c in ck.repo.mro(fsc)[1:] if "__init__" in c.methods), None)
+    bparams = [p for p in binit.params if p != "self"] if binit is not None else []
     for kw in ("memory_cache_mb", "config", "read_only"):
-        okk = A.kwarg(sup, kw) is not None and A.norm(A.kwarg(sup, kw)) == kw
+        val = A.arg_or_kw(sup, bparams.index(kw), kw) if kw in bparams else A.kwarg(sup, kw)
+        okk = val is not None and ("param:" + kw) in fsi.deps(val, fsi.nodes(sup)[0])
         ck.ob(R1, fsi.key(sup, "forwards-" + kw), okk, "%s is forwarded to the base backend" % kw if okk else "%s is not forwarded to the base backend" % kw, fsi.where(sup))
-    ds = [c for c in fsi.calls("_FilesystemDataSource")]
-    okd = {A.norm(c.args[0]) for c in ds if c.args} == {"self.config_path", "self.metadata_config_path"}
+
+    def see_sources(nd, env):
+        if nd.kind in ("stmt", "test"):
+            got = [A.norm(_subst(c.args[0], env)) for c in A.calls_in(nd.ast) if A.call_attr(c) == "_FilesystemDataSource" and c.args]
+            return got or None
+        return None
+
+    fpaths = _sym_paths(fsi, observe=see_sources)
+    ck.need(fpaths is not None, "FilesystemStorageBackend.__init__: too many paths")
+    fpaths = [p for p in fpaths if p.end == "exit"]
+    okd = bool(fpaths)
+    n_src = 0
+    for p in fpaths:
+        data, meta = p.env.get("self.config_path"), p.env.get("self.metadata_config_path")
+        roots = {x for o in p.obs for x in o}
+        n_src += len(roots)
+        stored = {A.norm(data) if data is not None else "self.config_path", A.norm(meta) if meta is not None else "self.metadata_config_path"}
+        names = {"self.config_path", "self.metadata_config_path"}
+        if data is None or meta is None or not roots <= (stored | names) or not ({A.norm(data), "self.config_path"} & roots):
+            okd = False
+    okd = okd and n_src > 0
     ck.ob(R1, fsi.key(None, "paths-used"), okd, "data and metadata sources are rooted at the configured paths" if okd else
           "the data / metadata sources are not built from config_path / metadata_config_path", fsi.where())
     # an option derived from another option (metadata path defaults to the data path) must see
-    # the FINAL value of that option, i.e. the same definitions that reach the store into self.<field>
-    finals = {}
-    for st in fsi.stmts(ast.Assign):
-        if len(st.targets) == 1 and A.dotted(st.targets[0]) and A.dotted(st.targets[0]).startswith("self.") and isinstance(st.value, ast.Name):
-            finals[st.value.id] = st
-    for st in fsi.stmts(ast.Assign):
-        tgt = st.targets[0]
-        if not isinstance(tgt, ast.Name):
+    # the FINAL value of that option: whatever the metadata path ends up as, it is the explicit argument,
+    # the configured metadata path, or the final data path
+    bad = None
+    for p in fpaths:
+        data, meta = p.env.get("self.config_path"), p.env.get("self.metadata_config_path")
+        if data is None or meta is None:
             continue
-        for n in ast.walk(st.value):
-            if isinstance(n, ast.Name) and n.id in finals and n.id != tgt.id and isinstance(n.ctx, ast.Load):
-                fin = finals[n.id]
-                same = all(fsi.df.same_defs(n.id, a, b) for a in fsi.nodes(st) for b in fsi.nodes(fin))
-                ck.ob(R2, fsi.key(st, "derived-from-final:" + n.id), same,
-                      "%s is derived from the final value of %s" % (tgt.id, n.id) if same else
-                      "%s is derived from %s before the explicit argument / default for %s is applied: with config path A and argument path=B "
-                      "the derived option still points at A" % (tgt.id, n.id, n.id), fsi.where(st))
+        for (l, v) in _value_cases(ck, fsi, p.lits, meta, p.env):
+            dcases = [dv for (dl, dv) in _value_cases(ck, fsi, l, data, p.env)]
+            finals = {A.norm(dv) for dv in dcases}
+            okv = (isinstance(v, ast.Name) and v.id == "metadata_path") or A.norm(v) in finals
+            if not okv and _cfg_key_read(v, "metadata_path"):
+                dflt = v.args[1] if isinstance(v, ast.Call) and len(v.args) > 1 else None
+                okv = dflt is None or A.is_none(dflt) or A.norm(dflt) in finals
+            if not okv:
+                bad = (v, sorted(finals))
+    ck.ob(R2, fsi.key(None, "derived-from-final:config_path"), bad is None,
+          "the metadata path is derived from the final value of the data path" if bad is None else
+          "the metadata path ends up as `%s` where the data path is `%s`: it was derived before the explicit argument / default for the data path "
+          "is applied; with config path A and argument path=B the derived option still points at A" % (A.short(bad[0], 60), ", ".join(bad[1])[:60]), fsi.where())
     sbi = FA(ck, "storage_base.StorageBackendBase.__init__")
     mc = [c for c in sbi.calls("MemoryCache")]
-    okm = len(mc) == 1 and [A.norm(a) for a in mc[0].args] == ["memory_cache_mb"]
+    okm = len(mc) == 1 and len(mc[0].args) + len(mc[0].keywords) == 1 and \
+        "param:memory_cache_mb" in sbi.deps((mc[0].args + [k.value for k in mc[0].keywords])[0], sbi.nodes(mc[0])[0]) and \
+        sbi.xnorm((mc[0].args + [k.value for k in mc[0].keywords])[0], sbi.nodes(mc[0])[0]) == "memory_cache_mb"
     ck.ob(R1, sbi.key(None, "cache-size"), okm, "the cache is created with the configured size" if okm else "MemoryCache is not created with memory_cache_mb", sbi.where())
     # ---- R1 for cluster / repository / environment
-    for clsname, extra_dump in (("FunctionCluster", set()), ("ConfigurationRepository", set()), ("Environment", set())):
+    for clsname in ("FunctionCluster", "ConfigurationRepository", "Environment"):
         cls = cfgm.classes[clsname]
-        reads = _config_reads(ck, cls)
-        # `"storage" in self.config` style
-        init = cls.methods["__init__"]
-        for n in A.walk_body(init.node):
-            if isinstance(n, ast.Compare) and isinstance(n.ops[0], (ast.In, ast.NotIn)) and A.const_str(n.left) and A.norm(n.comparators[0]) in ("self.config", "config"):
-                reads.add(A.const_str(n.left))
+        reads = _config_reads(ck, cls, membership=True)
         td = FA(ck, cls.methods["to_dict"])
-        dumped = _dict_writes(td)
+        dumped = {e.key for e in _dump_entries(td)}
         ok = reads == dumped
         ck.ob(R1, cls.qual + "::read-equals-dumped", ok, "%s reads and dumps the same keys %s" % (clsname, sorted(reads)) if ok else
               "%s reads %s from its configuration but dumps %s" % (clsname, sorted(reads - dumped) or "{}", sorted(dumped - reads) or "{}"), td.where())
@@ -278,46 +1246,10 @@ def check(ck):
     n2 = 0
     for q in ("configuration.FunctionCluster.__init__", "configuration.ConfigurationRepository.__init__", "configuration.Environment.__init__",
               "storage_filesystem.FilesystemStorageBackend.__init__", "storage.StorageBackend.__init__"):
-        fa = FA(ck, q)
-        for p in fa.fi.params:
-            if p in ("self", "config"):
-                continue
-            # assignment from the parameter under `if p is not None`
-            arg_asg = []
-            for s in fa.stmts(ast.Assign):
-                if isinstance(s.value, ast.Name) and s.value.id == p and not isinstance(s.targets[0], ast.Name) or \
-                        isinstance(s.value, ast.Name) and s.value.id == p and isinstance(s.targets[0], ast.Name) and s.targets[0].id != p:
-                    arg_asg.append(s)
-            if not arg_asg:
-                continue
-            tgt = A.norm(arg_asg[0].targets[0])
-            cfg_asg = [s for s in fa.stmts(ast.Assign) if A.norm(s.targets[0]) == tgt and s is not arg_asg[0] and
-                       ("config.get(" in A.norm(s.value) or "config[" in A.norm(s.value))]
-            if not cfg_asg:
-                continue
-            n2 += 1
-            # every config assignment precedes the override; none follows it
-            an = fa.nodes(arg_asg[0])
-            after = fa.cfg.reach(an, include_start=False)
-            late = [s for s in cfg_asg if set(fa.nodes(s)) & after]
-            ok = not late
-            ck.ob(R2, fa.key(None, "override:" + p), ok, "argument %s overrides the configured value" % p if ok else
-                  "the configured value is assigned after the explicit argument %s: the file overrides the argument" % p, fa.where(arg_asg[0]))
+        n2 += _precedence(ck, R2, q)
     ck.need(n2 >= 8, "precedence rule: only %d argument/config pairs recognised" % n2)
     # cluster storage / runner: explicit object wins over config, config over default
-    fc = FA(ck, "configuration.FunctionCluster.__init__")
-    for what, factory in (("storage", "StorageBackend"), ("runner", "RunnerBackend")):
-        ifs = [i for i in fc.stmts(ast.If) if A.norm(i.test) == "%s is not None" % what]
-        ok = len(ifs) == 1 and any(A.norm(s) == "self.%s = %s" % (what, what) for s in ifs[0].body)
-        if ok:
-            el = ifs[0].orelse
-            ok = len(el) == 1 and isinstance(el[0], ast.If) and A.norm(el[0].test) == "'%s' not in self.config" % what
-            if ok:
-                creates = [c for c in A.calls_in(el[0]) if A.call_dotted(c) == factory + ".create"]
-                ok = len(creates) == 2 and any(A.norm(c.args[0]).startswith("_DEFAULT") for c in creates) and \
-                    any([fc.xnorm(a, fc.nodes(c)[0]) for a in c.args] == ["self.config['%s']['type']" % what, "self.config['%s']" % what] for c in creates)
-        ck.ob(R2, fc.key(None, what + "-precedence"), ok, "%s: argument, else configured type+config, else default" % what if ok else
-              "the cluster's %s is not chosen as argument > configuration > default" % what, fc.where())
+    _cluster_backend_precedence(ck, R2, cfgm)
     # file loaders: sibling agreement — both split the path into (directory, file name) so that a
     # relative path is resolved against its own directory
     for q in ("configuration.ConfigurationRepository.from_file", "configuration.Environment.from_file"):
@@ -331,28 +1263,6 @@ def check(ck):
               "%s passes `%s` as the base directory of the file: a relative path (also a relative MEMENTO_ENV) is looked up under "
               "'<file name>/<path>' and cannot be loaded" % (q.split(".")[-2] + ".from_file", A.short(lc.args[0], 50) if lc.args else "?"), f.where(lc))
     # ---- R4
-    gc = FA(ck, "configuration.Environment.get_cluster")
-    loops = [n.ast for n in gc.cfg.nodes if n.kind == "for"]
-    ok = len(loops) == 1 and A.norm(loops[0].iter) == "self.repos"
-    if ok:
-        rets = [s for s in A.walk_local(loops[0]) if isinstance(s, ast.Return)]
-        lv = A.norm(loops[0].target)
-        ok = len(rets) == 1 and A.norm(rets[0].value) == "%s.clusters[cluster_name]" % lv and gc.enclosing(rets[0], ast.If) is not None \
-            and ("cluster_name in %s.clusters" % lv) in A.norm(gc.enclosing(rets[0], ast.If).test)
-        tail = [r for r in gc.returns() if not gc.inside(r, loops[0]) and A.is_none(r.value)]
-        ok = ok and len(tail) == 1
-    ck.ob(R4, gc.key(None, "first-match"), ok, "repositories are searched in order; the first that defines the cluster wins; None otherwise" if ok else
-          "get_cluster does not return the first repository (in self.repos order) defining the cluster, or None", gc.where())
-    dflt = [i for i in gc.stmts(ast.If) if A.norm(i.test) == "cluster_name is None"]
-    okd = len(dflt) == 1 and any(A.norm(s) == "return self.default_cluster" for s in dflt[0].body)
-    ck.ob(R4, gc.key(None, "default-cluster"), okd, "no name means the default cluster" if okd else "get_cluster(None) does not return the default cluster", gc.where())
-    pr = FA(ck, "configuration.Environment.prepend_repo")
-    ap = FA(ck, "configuration.Environment.append_repo")
-    okp = any(A.norm(c) == "self.repos.insert(0, repo)" for c in pr.calls("insert")) and any(A.norm(c) == "self.repos.append(repo)" for c in ap.calls("append"))
-    ck.ob(R4, pr.key(None, "priority-ends"), okp, "prepend = highest priority, append = lowest" if okp else
-          "prepend_repo / append_repo do not insert at the front / back of self.repos", pr.where())
-    ei = FA(ck, "configuration.Environment.__init__")
-    rp = [s for s in ei.stmts(ast.Assign) if A.norm(s.targets[0]) == "self.repos" and isinstance(s.value, ast.ListComp)]
-    okr = len(rp) == 1 and A.norm(rp[0].value.generators[0].iter) == "config.get('repos', [])" and not rp[0].value.generators[0].ifs
-    ck.ob(R4, ei.key(None, "repo-order"), okr, "configured repositories keep their file order" if okr else
-          "repositories are not loaded in the order of the 'repos' list", ei.where())
+    _first_match(ck, R4)
+    _priority_ends(ck, R4)
+    _repo_order(ck, R4)
